@@ -158,6 +158,24 @@ func runSyncParse(c *ctx) error {
 				r2.Servers = append(append([]hx.RawServer(nil), r.Servers...), mkSrv("extra", signer, signer == "srv"))
 				try(rogue(r2), -1, "rogue-extra-server-"+signer)
 			}
+			// the same server key twice in one list: a genuine entry and a forged one (other flags / fields, no valid signature)
+			for _, forgedFirst := range []bool{false, true} {
+				for _, signer := range []string{"", "x1", "srv"} {
+					gen := mkSrv("dup", "gca", false)
+					forged := mkSrv("dup", signer, true)
+					forged.Location = "6.6.6.6"
+					if signer != "" {
+						forged.Sig = s.SR.Sign(signer, hx.RefServerSigningBytes(forged))
+					}
+					r2 := r
+					if forgedFirst {
+						r2.Servers = append(append([]hx.RawServer(nil), r.Servers...), forged, gen)
+					} else {
+						r2.Servers = append(append([]hx.RawServer(nil), r.Servers...), gen, forged)
+					}
+					try(rogue(r2), -1, "rogue-duplicate-key")
+				}
+			}
 			// a migration order: outer signature by the current GCA / others, inner by the new GCA / others
 			for _, outer := range []string{"gca", "gca2", "srv", ""} {
 				for _, inner := range []string{"gca2", "gca", ""} {
